@@ -13,7 +13,7 @@ import (
 	"verif/run"
 )
 
-func TestMain(m *testing.M) { gen.Avoided = run.Avoided; run.Main(m, "C02") }
+func TestMain(m *testing.M) { gen.Avoided = run.Avoided; gen.LoneSurrogates = true; run.Main(m, "C02") }
 
 const chk = "scalar-rules"
 
